@@ -493,3 +493,99 @@ pub fn sql_session(
             })
     })
 }
+
+// ---------------------------------------------------------------- whole columns
+
+/// One step of a column read: `Some(n)`/`None` in `Batch` is the `expected_size` of `next_batch`.
+#[derive(Clone, Copy, Debug)]
+pub enum ColumnRead {
+    Batch(Option<usize>),
+    Skip(usize),
+}
+
+/// Builds a real one-column RowSet from `items` (Int32 if `strings` is false, else Varchar with
+/// the value `v` written as `"s{v}"`) with the given encoding (0 plain, 1 run-length, 2
+/// dictionary), nullability and block size, opens it, positions a column iterator at `start` and
+/// performs `steps`. Returns every batch as (first row id, values).
+#[allow(clippy::type_complexity)]
+pub fn column_read(
+    items: &[Option<i32>],
+    strings: bool,
+    encode: u8,
+    nullable: bool,
+    target_block_size: usize,
+    start: u32,
+    steps: &[ColumnRead],
+) -> Result<Vec<(u32, Vec<Option<i32>>)>, String> {
+    use super::ColumnIteratorImpl;
+    guarded(|| {
+        block_on(async {
+            let ty = if strings {
+                DataType::String
+            } else {
+                DataType::Int32
+            };
+            let columns: Arc<[ColumnCatalog]> =
+                vec![ColumnCatalog::new(0, ColumnDesc::new("a", ty, nullable))].into();
+            let options = ColumnBuilderOptions {
+                target_block_size,
+                checksum_type: ChecksumType::Crc32,
+                encode_type: match encode {
+                    0 => EncodeType::Plain,
+                    1 => EncodeType::RunLength,
+                    _ => EncodeType::Dictionary,
+                },
+                record_first_key: false,
+            };
+            let array = if strings {
+                let mut b = StringArrayBuilder::new();
+                for it in items {
+                    b.push(it.map(|v| format!("s{v}")).as_deref());
+                }
+                ArrayImpl::new_string(b.finish())
+            } else {
+                let mut b = I32ArrayBuilder::new();
+                for it in items {
+                    b.push(it.as_ref());
+                }
+                ArrayImpl::new_int32(b.finish())
+            };
+            let mut builder = RowsetBuilder::new(columns.clone(), options);
+            builder.append([array].into_iter().collect());
+            let backend = IOBackend::in_memory();
+            let dir = std::path::PathBuf::from("/verif-replay/0_0");
+            RowsetWriter::new(&dir, backend.clone())
+                .flush(builder.finish())
+                .await
+                .map_err(|e| e.to_string())?;
+            let rowset = DiskRowset::open(dir, columns, Cache::new(64), 0, backend)
+                .await
+                .map_err(|e| e.to_string())?;
+            let mut it = ColumnIteratorImpl::new(rowset.column(0), rowset.column_info(0), start)
+                .await
+                .map_err(|e| e.to_string())?;
+            let mut out = vec![];
+            for step in steps {
+                match step {
+                    ColumnRead::Skip(n) => it.skip(*n),
+                    ColumnRead::Batch(n) => {
+                        let Some((row_id, array)) =
+                            it.next_batch(*n).await.map_err(|e| e.to_string())?
+                        else {
+                            continue;
+                        };
+                        let values = match &array {
+                            ArrayImpl::Int32(a) => a.to_vec(),
+                            ArrayImpl::String(a) => (a.to_vec().into_iter())
+                                .map(|s| s.map(|s| s[1..].parse::<i32>().unwrap()))
+                                .collect(),
+                            _ => return Err("unexpected array type".into()),
+                        };
+                        out.push((row_id, values));
+                    }
+                }
+            }
+            Ok(out)
+        })
+    })
+}
